@@ -78,3 +78,50 @@ fn c17_change_cursor_bounds() {
     kani::cover!(r.is_err() && count.checked_mul(size).is_none(), "overflowing count rejected");
     core::mem::forget((r0, r));
 }
+
+// ---- builders for contract-mode vectors (private fields of base types) ----
+use std::marker::PhantomData;
+use std::sync::Arc;
+
+/// Vec of concrete capacity 4 filled through raw writes (no Vec::push: std's grow path is what
+/// makes state builders explode).
+pub(crate) fn vec4<T: Copy>(vals: &[T; 4], n: usize) -> Vec<T> {
+    assert!(n <= 4);
+    let mut v: Vec<T> = Vec::with_capacity(4);
+    let p = v.as_mut_ptr();
+    let mut i = 0;
+    while i < 4 {
+        if i < n {
+            unsafe { p.add(i).write(vals[i]) };
+        }
+        i += 1;
+    }
+    unsafe { v.set_len(n) };
+    v
+}
+
+pub(crate) fn mk_base<I, T: Copy>(
+    region: rawdb::Region,
+    header: Header,
+    stored_len: usize,
+    pushed: Vec<T>,
+    prev_pushed: Vec<T>,
+    prev_stored_len: usize,
+    saved_stamped_changes: u16,
+) -> ReadWriteBaseVec<I, T> {
+    ReadWriteBaseVec {
+        read_only: ReadOnlyBaseVec {
+            region,
+            stored_len: SharedLen::new(stored_len),
+            name: Arc::from("v"),
+            header,
+            phantom: PhantomData,
+        },
+        pushed: WithPrev { current: pushed, previous: prev_pushed },
+        previous_stored_len: prev_stored_len,
+        saved_stamped_changes,
+    }
+}
+pub(crate) fn with_prev<T>(current: T, previous: T) -> WithPrev<T> {
+    WithPrev { current, previous }
+}
